@@ -336,6 +336,232 @@ def check_poll_case(ctx, exe, case, do_model=True):
     return None, out
 
 
+
+# ============================================================================= fs_event (scripted records)
+MASKS = [2, 4, 6, 0x100, 0x200, 0x400, 0x800, 0x40, 0x80, 0x102, 0x40000100, 0x8000, 0x40000002, 0x40000004, 0x204]
+CHANGE_BITS = 0x2 | 0x4
+RENAME_BITS = 0x100 | 0x200 | 0x400 | 0x800 | 0x40 | 0x80
+
+
+def gen_ev_script_ops(rng):
+    ops = []
+    for _ in range(rng.range(1, 3)):
+        r = rng.below(10)
+        h = rng.below(NH)
+        if r < 5:
+            ops.append(f"stop:{h}")
+        elif r < 8:
+            ops.append(f"start:{h}:{rng.below(4)}:{rng.range(1, 3)}:{rng.below(2)}")
+        else:
+            ops.append(f"close:{h}")
+    return ";".join(ops)
+
+
+def gen_event_case(rng, nsteps, bias=None):
+    lines = []
+    for k in range(rng.range(0, 8)):
+        if rng.chance(2, 3):
+            lines.append(f"script {k} {gen_ev_script_ops(rng)}")
+    for _ in range(nsteps):
+        r = rng.below(100)
+        h = rng.below(NH)
+        if r < 38:
+            wd = rng.range(1, 3) if rng.chance(14, 15) else 0
+            if bias == "shared" and rng.chance(1, 2):
+                wd = 1
+            lines.append(f"start {h} {rng.below(4)} {wd} {rng.below(2)}")
+        elif r < 48:
+            lines.append(f"stop {h}")
+        elif r < 52:
+            lines.append(f"close {h}")
+        elif r < 56:
+            lines.append("run")
+        else:
+            recs = []
+            for i in range(rng.range(1, 4)):
+                if i and rng.chance(1, 4):
+                    recs.append("/")
+                recs.append(f"{rng.range(1, 4)}:{rng.choice(MASKS)}:{rng.choice(['-', '-', 'n1', 'n2'])}")
+            lines.append("dispatch " + " ".join(recs))
+    lines.append("end")
+    return lines
+
+
+def monitor_event(case, rc, out, err):
+    """A handle started on the record's wd *during* that record's dispatch is not owed the record, but the
+    property does not forbid delivering it either: attribution of callbacks to records is tried without
+    and then with such optional deliveries; the log is accepted if either reading satisfies the property."""
+    try:
+        monitor_event1(case, rc, out, err, False)
+    except Bad as first:
+        if first.sig in ("fsevent-asan", "fsevent-abort", "fsevent-timeout"):
+            raise
+        try:
+            monitor_event1(case, rc, out, err, True)
+        except Bad:
+            raise first
+
+
+def monitor_event1(case, rc, out, err, use_optional):
+    lines = out.splitlines()
+    if rc != 0:
+        tail = (err or "").strip().splitlines()[-12:]
+        kind = "asan" if "AddressSanitizer" in err or "LeakSanitizer" in err else ("timeout" if rc == -999 else "abort")
+        raise Bad(f"fsevent-{kind}", f"harness exited {rc}: " + " | ".join(tail)[-1200:])
+    watch = {h: None for h in range(NH)}
+    aliases = {}                 # wd -> basenames used to start handles on it
+    last_op = None
+    recs = None
+    st = {"idx": -1, "pending": set(), "optional": set(), "delivered": set(), "stopped": set()}
+    ever_stopped = set()
+
+    def close_record(ln):
+        if 0 <= st["idx"] < len(recs):
+            wd = recs[st["idx"]][0]
+            lost = [h for h in st["pending"] - st["delivered"] if watch[h] == wd and h not in st["stopped"]]
+            if lost:
+                raise Bad("fsevent-lost-event", f"line {ln}: record {recs[st['idx']]} never reached watching handle(s) {sorted(lost)}")
+
+    def next_record(ln):
+        close_record(ln)
+        st["idx"] += 1
+        st["delivered"], st["stopped"], st["optional"] = set(), set(), set()
+        st["pending"] = {h for h in range(NH) if st["idx"] < len(recs) and watch[h] == recs[st["idx"]][0]}
+
+    for ln, l in enumerate(lines):
+        w = l.split()
+        if not w or l.startswith("#closecb") or l.startswith("#ran") or l.startswith("#walk"):
+            continue
+        if l.startswith("#harness-failure"):
+            raise Bad("fsevent-harness-failure", l)
+        if w[0] == "op":
+            last_op = w[1:]
+            if w[1] in ("stop", "close"):
+                h = int(w[2])
+                if recs is not None:
+                    st["stopped"].add(h)
+                    ever_stopped.add(h)
+                watch[h] = None
+            elif w[1] == "dispatch":
+                recs = []
+                for x in w[2:]:
+                    if x != "/":
+                        a, b, c = x.split(":")
+                        recs.append((int(a), int(b), c))
+                st["idx"] = -1
+                ever_stopped = set()
+                next_record(ln)
+            continue
+        if w[0] == "ret":
+            if last_op and last_op[0] == "start" and w[1] == "0":
+                h, wd = int(last_op[1]), int(last_op[3])
+                watch[h] = wd
+                aliases.setdefault(wd, set()).add(f"w{wd}_{last_op[4]}")
+                if use_optional and recs is not None and 0 <= st["idx"] < len(recs) and recs[st["idx"]][0] == wd:
+                    st["optional"].add(h)
+                    st["stopped"].discard(h)
+            continue
+        if w[0] == "cb":
+            if recs is None:
+                raise Bad("fsevent-callback-outside-dispatch", f"line {ln}: {l}")
+            h = int(w[1][1:])
+            name, evs = w[3][5:], int(w[4][3:])
+            while True:
+                i = st["idx"]
+                if i >= len(recs):
+                    sig = "fsevent-callback-after-stop" if h in ever_stopped and watch[h] is None else "fsevent-spurious-callback"
+                    raise Bad(sig, f"line {ln}: `{l}` corresponds to no record for a handle watching it (handle stopped: {h in ever_stopped})")
+                wd, mask, rname = recs[i]
+                if h in (st["pending"] | st["optional"]) - st["delivered"] and watch[h] == wd and h not in st["stopped"]:
+                    need = (2 if mask & CHANGE_BITS else 0) | (1 if mask & RENAME_BITS else 0)
+                    okname = (name == rname) if rname != "-" else (name in aliases.get(wd, set()))
+                    if okname and (evs & need) == need and evs in (1, 2, 3):
+                        st["delivered"].add(h)
+                        break
+                    if okname:
+                        raise Bad("fsevent-wrong-events", f"line {ln}: `{l}` for mask {mask:#x}: needs bits {need}")
+                next_record(ln)
+            continue
+        if w[0] == "dispatched":
+            while st["idx"] < len(recs):
+                next_record(ln)
+            recs = None
+            continue
+        if w[0] == "rmwatch":
+            wd = int(w[1])
+            still = [h for h in range(NH) if watch[h] == wd]
+            if still:
+                raise Bad("fsevent-watch-removed-while-watched", f"line {ln}: inotify_rm_watch({wd}) while handles {still} watch it")
+            continue
+        if w[0] == "loopclose":
+            if l != "loopclose 0 open=0":
+                raise Bad("fsevent-loop-not-closed", f"teardown: {l}")
+            continue
+        if w[0] == "bad-op":
+            raise Bad("fsevent-bad-op", f"line {ln}: generator produced an op the harness rejects")
+        if w[0] in ("addwatch", "misuse", "script", "noinotify"):
+            continue
+        raise Bad("fsevent-unparsed", f"line {ln}: {l}")
+    if not lines or not lines[-1].startswith("loopclose"):
+        raise Bad("fsevent-truncated", "no loopclose line")
+
+
+def model_input_event(out):
+    inside = False
+    res = []
+    for l in out.splitlines():
+        if l.startswith("op dispatch"):
+            inside = True
+            res.append(l)
+        elif l in ("dispatched", "noinotify"):
+            inside = False
+        elif not inside and (l.startswith("op ") or l.startswith("script ")):
+            res.append(l)
+    return "\n".join(res) + "\n"
+
+
+def event_features(out):
+    f = set()
+    watch = {}
+    last = None
+    indisp = False
+    for l in out.splitlines():
+        w = l.split()
+        if not w:
+            continue
+        if w[0] == "op":
+            last = w[1:]
+            if w[1] == "dispatch":
+                indisp = True
+                wds = [int(x.split(":")[0]) for x in w[2:] if x != "/"]
+                for wd in wds:
+                    if sum(1 for v in watch.values() if v == wd) >= 2:
+                        f.add("shared-wd")
+            if w[1] in ("stop", "close"):
+                if indisp and watch.get(int(w[2])):
+                    f.add("stop-in-callback")
+                watch[int(w[2])] = None
+        if w[0] == "ret" and last and last[0] == "start" and w[1] == "0":
+            watch[int(last[1])] = int(last[3])
+            if indisp:
+                f.add("start-in-callback")
+        if w[0] == "dispatched":
+            indisp = False
+        if w[0] == "rmwatch":
+            f.add("list-freed")
+    return f
+
+
+def check_event_case(ctx, exe, case, do_model=True):
+    text = "\n".join(case) + "\n"
+    rc, out, err = ctx.run(exe, ["event"], text=text, timeout=60)
+    try:
+        monitor_event(case, rc, out, err)
+    except Bad as b:
+        return b, out
+    return None, out
+
+
 def shrink(ctx, exe, case, sig, checker):
     """delta-debugging over lines (keeps `end`)"""
     cur = list(case)
@@ -363,7 +589,8 @@ def shrink(ctx, exe, case, sig, checker):
 
 def model_batch(ctx, dmode, outs):
     """one driver process for a whole batch: `reset` separates the programs"""
-    text = "".join("reset\n" + model_input(o) for o in outs)
+    mi = model_input if dmode == "c17poll" else model_input_event
+    text = "".join("reset\n" + mi(o) for o in outs)
     parts = ctx.driver([dmode], text).split("=== reset\n")[1:]
     return [p.splitlines() for p in parts]
 
